@@ -82,7 +82,7 @@ func pick(r *rand.Rand, ws []weighted) string {
 }
 
 var denomKinds = []weighted{
-	{26, "enabled"}, {7, "multi2nd"}, {5, "hop"}, {5, "hop-via-our-own-channel-id"}, {6, "disabled"}, {8, "paused"}, {4, "dead"}, {8, "ext"}, {4, "extdry"}, {5, "siphon"}, {5, "delay"},
+	{26, "enabled"}, {7, "multi2nd"}, {5, "hop"}, {5, "hop-via-our-own-channel-id"}, {6, "disabled"}, {8, "paused"}, {4, "dead"}, {8, "ext"}, {4, "extdry"}, {5, "siphon"}, {5, "delay"}, {6, "returns-false"},
 	{6, "unregistered"}, {4, "a-native"}, {5, "fresh"}, {5, "returning-stake"}, {5, "returning-bcoin"}, {2, "returning-overdraw"},
 	{2, "returning-unknown"}, {6, "hostile"},
 }
@@ -148,6 +148,8 @@ func (w *world) genSpec(r *rand.Rand, fullStack bool) *spec {
 		usePair(lbl("siphon0"))
 	case "delay":
 		usePair(lbl("delay0"))
+	case "returns-false":
+		usePair(lbl([]string{"lie0", "liemove0"}[r.Intn(2)]))
 	case "unregistered":
 		s.Denom = "ufree"
 	case "a-native":
